@@ -16,19 +16,13 @@ def run_history(req):
     results = []
     for op in req['ops']:
         if op['op'] == 'battery':
-            try:
-                with time_limit(60):
-                    fn = c12_ops.battery_isolated if req.get('isolated') else c12_ops.battery
-                    results.append({'battery': fn(runner), 'state': runner.state()})
-            except TimeLimit:
-                results.append({'battery': ['TIMEOUT'], 'state': runner.state()})
+            with time_limit(600):       # a time-out here is an infrastructure problem (exit 3), never a finding
+                fn = c12_ops.battery_isolated if req.get('isolated') else c12_ops.battery
+                results.append({'battery': fn(runner), 'state': runner.state()})
             continue
         before = c12_snapshot.snapshot() if req.get('snapshot') else None
-        try:
-            with time_limit(20):
-                res = runner.execute(op)
-        except TimeLimit:
-            res = {'out': 'timeout', 'seen': []}
+        with time_limit(300):
+            res = runner.execute(op)
         res['state'] = runner.state()
         if before is not None:
             res['snapdiff'] = c12_snapshot.diff(before, c12_snapshot.snapshot())[:12]
@@ -80,10 +74,14 @@ def calibrate(req):
 
 def main():
     req = json.load(sys.stdin)
-    if req['mode'] == 'calibrate':
-        json.dump(calibrate(req), sys.stdout)
-    else:
-        json.dump(run_history(req), sys.stdout)
+    try:
+        if req['mode'] == 'calibrate':
+            json.dump(calibrate(req), sys.stdout)
+        else:
+            json.dump(run_history(req), sys.stdout)
+    except TimeLimit:
+        sys.stderr.write('C12-WORKER-TIMEOUT\n')
+        sys.exit(3)
 
 
 if __name__ == '__main__':
